@@ -135,10 +135,12 @@ Qed.
 (* the specification does not distinguish equivalent records *)
 Theorem sfield_sim : forall R R', srec_sim R R' -> forall fuel k, sfield fuel R k = sfield fuel R' k.
 Proof.
-  intros R R' H. induction fuel as [|n IH]; intros k; cbn [sfield]; [reflexivity|].
-  specialize (H k). destruct (slookup k R) as [f|], (slookup k R') as [f'|]; cbn in H; try tauto; try reflexivity.
-  destruct H as [_ Hv]. destruct (sval f) as [b|], (sval f') as [b'|]; cbn in Hv; try tauto; try reflexivity.
-  apply seval_sim; [assumption|]. intros x. rewrite IH. reflexivity.
+  intros R R' H. induction fuel as [|n IH]; intros k; cbn [sfield].
+  - specialize (H k). destruct (slookup k R) as [f|], (slookup k R') as [f'|]; cbn in H; try tauto; try reflexivity.
+    destruct H as [_ Hv]. destruct (sval f) as [b|], (sval f') as [b'|]; cbn in Hv; try tauto; reflexivity.
+  - specialize (H k). destruct (slookup k R) as [f|], (slookup k R') as [f'|]; cbn in H; try tauto; try reflexivity.
+    destruct H as [_ Hv]. destruct (sval f) as [b|], (sval f') as [b'|]; cbn in Hv; try tauto; try reflexivity.
+    apply seval_sim; [assumption|]. intros x. rewrite IH. reflexivity.
 Qed.
 
 (* ------------------------------------------------------------------------- lookup *)
